@@ -53,33 +53,37 @@ class MixLeaf(KDDataset):
             ctx["src"] = self.ids[idx]
         return torch.from_numpy(encode(self.ids[idx], self.C, self.H, self.W, self.bits)).float()
 
-    def label_row(self, idx):
-        """reference label of sample idx as float64 (vector for one-hot kinds, scalar array for binary kinds)"""
+    def _raw_label(self, idx):
+        """label of sample idx exactly as the dataset hands it out (numpy, in the label's own dtype)"""
         lab = self.label
-        kind = lab["kind"]
-        if kind in ("onehot", "smooth"):
+        kind, dt = lab["kind"], lab.get("dtype", "float32")
+        if kind == "onehot":
+            row = np.zeros(lab["K"], dtype={"int64": np.int64, "float16": np.float16, "float64": np.float64}.get(dt, np.float32))
+            row[lab["classes"][idx]] = 1
+            return row
+        if kind == "smooth":
+            ft = np.float64 if dt == "float64" else np.float32
             K = lab["K"]
-            if kind == "onehot":
-                row = np.zeros(K, dtype=np.float32)
-                row[lab["classes"][idx]] = 1.
-            else:
-                off = np.float32(lab["smooth"]) / np.float32(K)
-                row = np.full(K, off, dtype=np.float32)
-                row[lab["classes"][idx]] = np.float32(1.) - np.float32(lab["smooth"]) + off
-            return row.astype(np.float64)
-        return np.array(float(lab["values"][idx]), dtype=np.float64)
+            off = ft(lab["smooth"]) / ft(K)
+            row = np.full(K, off, dtype=ft)
+            row[lab["classes"][idx]] = ft(1.) - ft(lab["smooth"]) + off
+            return row
+        return np.array(lab["values"][idx], dtype={"int64": np.int64, "float64": np.float64}.get(dt, np.float32))
+
+    def label_row(self, idx):
+        """reference label of sample idx as float64: the dataset's value as a float32 number (the precision labels are
+        mixed in); vector for one-hot kinds, scalar array for binary kinds"""
+        return self._raw_label(idx).astype(np.float32).astype(np.float64)
 
     def getitem_class(self, idx, ctx=None):
         lab = self.label
         kind = lab["kind"]
-        if kind in ("onehot", "smooth"):
-            return torch.from_numpy(self.label_row(idx).astype(np.float32))
+        if kind == "onehot" and lab.get("dtype") == "int64":
+            return torch.nn.functional.one_hot(torch.tensor(lab["classes"][idx]), num_classes=lab["K"])
+        if kind in ("onehot", "smooth", "bin_tensor"):  # bin_tensor may be a soft label
+            return torch.from_numpy(np.ascontiguousarray(self._raw_label(idx)))
         v = lab["values"][idx]
-        if kind == "bin_int":
-            return int(v)
-        if kind == "bin_float":
-            return float(v)
-        return torch.tensor(float(v), dtype=torch.float32)  # bin_tensor (may be a soft label)
+        return int(v) if kind == "bin_int" else float(v)
 
     def getshape_class(self):
         return (self.label.get("K", 1),)
